@@ -167,6 +167,67 @@ def harmless(case, impl, model):
     return len(m) >= 2 and len(o) >= 2 and o[0] == m[0] and o[1] == m[1]
 
 
+def kernel_crosscheck(ctx, limit=60):
+    """a sample of the `hc` cases over Z (i32: Z_dict; i64 / i128 / big: Zpre_dict with the LLL-HNF model as SNF
+    preprocessing) evaluated by vm_compute inside coqc - HomologyCalc.calculate with the Model/Snf.v adapter, then
+    forward_mat / backward_mat - must give exactly the rank, torsion list and coordinate matrices the EXTRACTED
+    runner printed"""
+    import os
+    out = os.path.join(ctx.work, "corr")
+    try:
+        cases = open(os.path.join(out, "cases.txt")).read().splitlines()
+        model = open(os.path.join(out, "model.txt")).read().splitlines()
+    except OSError:
+        return {}, []
+    z = lambda x: "(%d)%%Z" % int(x)
+
+    def mat(m, n, ents):
+        if len(ents) != m * n:
+            raise ValueError
+        rows = [] if (m == 0 and n != 0) else [ents[i * n:(i + 1) * n] for i in range(m)]
+        return "(mkm %d %d [%s])" % (m, n, "; ".join("[" + "; ".join(z(x) for x in r) + "]" for r in rows))
+
+    def pmat(sx):
+        if sx == "P":
+            return "None"
+        dims, body = sx.split(":", 1)
+        m, n = [int(x) for x in dims.split("x")]
+        ents = [x for r in body.split(";") for x in r.split(",") if x != ""]
+        return "(Some %s)" % mat(m, n, ents)
+
+    ex = []
+    for rings, dic, lim in ((("i32",), "Z_dict", limit // 2), (("i64", "i128", "big"), "(Zpre_dict (Some zpre))", limit - limit // 2)):
+        sel = [(c.split(), mm) for c, mm in zip(cases, model)
+               if c.startswith(tuple("hc %s " % r for r in rings)) and len(c.split()) <= 60 and mm != "SKIP"]
+        step = max(1, len(sel) // lim)
+        for t, mm in sel[::step][:lim]:
+            try:
+                wt = "true" if t[2] == "1" else "false"
+                rest = t[7 + int(t[6]):]
+                c1, c2, c3 = int(rest[0]), int(rest[1]), int(rest[2])
+                ents = rest[3:]
+                d1 = mat(c2, c1, ents[:c2 * c1])
+                d2 = mat(c3, c2, ents[c2 * c1:])
+                lhs = ("match hc_calculate %s %s %s %s with None => None | Some (rk, tors, tr) => Some (rk, tors, "
+                       "match tr with None => None | Some t => Some (forward_mat (ed_ring %s) t, backward_mat (ed_ring %s) t) end) end"
+                       % (dic, d1, d2, wt, dic, dic))
+                if mm == "P":
+                    rhs = "None"
+                else:
+                    f = dict(x.split("=", 1) for x in mm.split())
+                    tors = "[]" if f["T"] == "-" else "[" + "; ".join(z(x) for x in f["T"].split(",")) + "]"
+                    tr = "None" if f["F"] == "-" else "Some (%s, %s)" % (pmat(f["F"]), pmat(f["B"]))
+                    rhs = "Some (%d, %s, %s)" % (int(f["R"]), tors, tr)
+            except (ValueError, IndexError, KeyError):
+                continue
+            ex.append((lhs, rhs))
+    pre = ["From Coq Require Import List ZArith NArith Arith.",
+           "Require Import Yui.Base.Ring Yui.Model.Snf Yui.Model.Lll Yui.Model.HomologyCalc Yui.Extract.ExtractC07.",
+           "Import ListNotations.",
+           "Definition zpre : preproc Z := fun _ _ f1 f2 A => lll_hnf Z_lll A (f1, f2) (N.to_nat 1000000)."]
+    return C.kernel_examples(ctx, pre, ex, timeout=900)
+
+
 def run(ctx):
     ctx.equal = equal
     obl = C.coq_obligations(ctx.pid, ["Extract/ExtractC07.vo"], more_props=["C07Uct", "C07Merge"])
@@ -176,6 +237,12 @@ def run(ctx):
     corr = C.correspondence(ctx, "c07", nontrivial)
     viol, stats = scan(ctx)
     extra["c07_stats"] = stats
+    if corr.get("ok"):
+        info, probs = kernel_crosscheck(ctx)
+        extra.update(info)
+        if probs:
+            obl["problems"] = obl.get("problems", []) + probs
+            obl["ok"] = False
     return C.finish(ctx, "proof", obl, corr, RULE, extra_cov=extra, assumptions=ASSUME, extra_violations=viol,
                     harmless=harmless)
 
